@@ -6,3 +6,6 @@ open Pcore.Syntax
 #print axioms C05_regexp_raw_newline_fails
 #print axioms C05_int
 #print axioms C05_value_roundtrip
+#print axioms C05_type_roundtrip_partial
+#print axioms C05_type_reprint
+#print axioms C05_exact_string_prints_plain
